@@ -304,7 +304,13 @@ func renderStringarray(data map[string]any, key, oldkey string, example string) 
 
 	var output []string
 	for _, s := range sa {
-		output = append(output, fmt.Sprintf("%s- %s", comment, s))
+		item := s
+		if comment == "" {
+			// a value from the user's file: quote it whenever YAML would not
+			// read the bare text back as the same string ("*", "12345", "a: b")
+			item = yamlf(s)
+		}
+		output = append(output, fmt.Sprintf("%s- %s", comment, item))
 	}
 	return comment + key + ":\n      " + strings.Join(output, "\n      ")
 }
